@@ -109,7 +109,8 @@ func hasRecoverDefer(fn *ssa.Function) bool {
 				continue
 			}
 			cl := mc.Fn.(*ssa.Function)
-			rec, stores := false, false
+			rec := false
+			var target ssa.Value // the captured variable the recovered error is stored into
 			for _, cb := range cl.Blocks {
 				for _, cin := range cb.Instrs {
 					if call, ok := cin.(*ssa.Call); ok {
@@ -118,14 +119,30 @@ func hasRecoverDefer(fn *ssa.Function) bool {
 						}
 					}
 					if st, ok := cin.(*ssa.Store); ok {
-						if _, isFree := st.Addr.(*ssa.FreeVar); isFree && types.Identical(st.Val.Type(), types.Universe.Lookup("error").Type()) {
-							stores = true
+						if fv, isFree := st.Addr.(*ssa.FreeVar); isFree && types.Identical(st.Val.Type(), types.Universe.Lookup("error").Type()) {
+							for i, f := range cl.FreeVars {
+								if f == fv && i < len(mc.Bindings) {
+									target = mc.Bindings[i]
+								}
+							}
 						}
 					}
 				}
 			}
-			if rec && stores {
-				return true
+			if !rec || target == nil {
+				continue
+			}
+			// the variable must be the function's named error result: after a recovered panic the function returns
+			// through its recover block, which loads the named results
+			if fn.Recover == nil {
+				continue
+			}
+			if ret, ok := fn.Recover.Instrs[len(fn.Recover.Instrs)-1].(*ssa.Return); ok {
+				for _, r := range ret.Results {
+					if ld, ok := r.(*ssa.UnOp); ok && ld.X == target {
+						return true
+					}
+				}
 			}
 		}
 	}
@@ -259,9 +276,30 @@ func ruleC20Helper(e *Env, h helperSpec) {
 				}
 			}
 		}
+		// the test must run on the first case whatever its constraint: it may not sit behind the direction filter
+		behind := false
+		for _, call := range e.C.Calls(fn, flow.InRepo) {
+			if n := e.C.StaticCallee(&call.Call).Name(); n == "isForMarshal" || n == "isForUnmarshal" {
+				for _, r := range *call.Referrers() {
+					if iff, ok := r.(*ssa.If); ok {
+						pass := iff.Block().Succs[0]
+						for _, b := range fn.Blocks {
+							for _, in := range b.Instrs {
+								c2, ok := in.(*ssa.Call)
+								if ok && strings.HasPrefix(calleeName(&c2.Call), "github.com/stretchr/testify/assert.FailNow") && (pass == b || pass.Dominates(b)) {
+									behind = true
+								}
+							}
+						}
+					}
+				}
+			}
+		}
 		switch {
 		case !okIface:
 			e.S.Bad("C20.iface", site, "missing interface", why, pos, "")
+		case behind:
+			e.S.Bad("C20.iface", site, "missing interface", "the interface test sits behind the direction filter: when the first case is restricted to the other direction the type is never checked (and the cast function stays nil)", pos, "first case OnlyMarshal/OnlyUnmarshal")
 		case !ifaceOK:
 			e.S.Bad("C20.iface", site, "missing interface", "the interface tested on the first case does not declare "+h.name, pos, "")
 		default:
